@@ -250,3 +250,94 @@ ENGINES.append(dict(name="codec-lab", path="checks/codec.cpp + harness/",
                     serves_properties=["C01", "C02", "C03", "C04", "C05", "C06", "C10", "C11"],
                     kind_free_text="type-universe x value-domain explorer over the real Serializer/Deserializer and every "
                                    "library reader/writer, reference codec from docs/format.md, forked per type"))
+
+# ----------------------------------------------------------------------------------------------- C18
+c18 = B("c18", "checks/c18_siphash.cpp", "gcc")
+c18_clang = B("c18_clang", "checks/c18_siphash.cpp", "asan")
+
+
+def jobs_c18(tier):
+    return [job(c18, "--tier", tier), job(c18_clang, "--tier", tier)]
+
+
+CHECKS["C18"] = dict(
+    engine="scalar-lab", level="exploration", jobs=jobs_c18,
+    level_text="SipHash::Compute is compared with an independent SipHash-2-4 (checked against the paper's test vector) on "
+               "every byte string of length <= 2, on six byte patterns (i, 0xff-i, 00, 7f, 80, ff) for every length 0..300 "
+               "(0..1100 thorough) as uint8_t and as char arrays, under 133 keys (zero, all-ones, the library's table and "
+               "interface keys, the reference key, all 128 one-bit keys); for 14 name literals (empty, lengths around the "
+               "8-byte block boundary, > 255 bytes, UTF-8 and raw bytes >= 0x80) the constexpr value, the run-time value "
+               "over laundered bytes and the reference are compared; EntryList::Hash, the hash field on the wire, "
+               "interface hashes and 32/64-bit method selectors of declared tables/interfaces are recomputed independently",
+    level_note="keys are taken from nop/table.h and nop/rpc/interface.h (the property says 'under the library's fixed keys'); "
+               "'all 128-bit keys' is the structured 133-key set; g++ and clang builds",
+    technique="bounded exhaustive enumeration of inputs against an independent reference implementation",
+    rule="one case per (element type, message, key) and per declared name/table/interface/method; run-time cases are distinct "
+         "by construction; non-trivial = non-empty message",
+    assumptions=R_ASSUME[1:] + ["string literals are hashed including their terminating NUL, as the NOP_TABLE_NS / NOP_INTERFACE macros do"],
+    bounds=dict(quick="all strings <= 2 bytes x 5 keys; lengths 0..300 x 6 patterns x 133 keys; 14 names; 6 tables; 2 interfaces",
+                thorough="all strings <= 2 bytes x 133 keys; lengths 0..1100"),
+    floor=dict(evaluations=dict(quick=1000000, thorough=10000000)),
+)
+
+# ----------------------------------------------------------------------------------------------- C16
+c16 = B("c16", "checks/c16_bounded.cpp", "gcc")
+c16_asan = B("c16_asan", "checks/c16_bounded.cpp", "asan")
+
+
+def jobs_c16(tier):
+    n = 8
+    return sharded(c16, n, "--tier", tier) + ([job(c16_asan, "--tier", tier)] if tier == "thorough" else [])
+
+
+CHECKS["C16"] = dict(
+    engine="contract-lab", level="model_checking", jobs=jobs_c16,
+    level_text="explicit-state search to fixpoint over (budget used, wrapped cursor, wrapped calls up to a scripted failure): "
+               "every reachable state of BoundedReader/BoundedWriter over a logging inner reader/writer is expanded with "
+               "every call of the alphabet (Ensure/Prepare, byte, ranges of width 1/2/4/8 x 0..3 elements, Skip, "
+               "Read/WritePadding with sizes 0,1,2,3,rem-1,rem,rem+1,2^63,2^64-rem,2^64-1-rem,2^64-1 and a non-zero padding "
+               "value) and compared with a two-counter reference model on status, the exact calls forwarded to the wrapped "
+               "object, budget, delivered/written bytes and final position",
+    level_note="limits {0,1,2,3,8,2^63,2^64-2,2^64-1}; wrapped source/capacity of limit-1, limit, limit+3 bytes; wrapped "
+               "failure injected at call 0,1,2,4 or never; state abstraction is exact because Bounded* holds only "
+               "(pointer,size,index) and the probe only (cursor, call count)",
+    technique="explicit-state model checking of the implementation against a reference model (BFS with state hashing, fixpoint)",
+    rule="states = distinct (used, inner cursor, capped inner call count) per configuration; transitions = calls executed "
+         "on the real object and compared",
+    assumptions=R_ASSUME[1:],
+    bounds=dict(quick="120 reader + 120 writer configurations, fixpoint", thorough="165 + 165 configurations, plus an ASan build"),
+    floor=dict(transitions=dict(quick=50000, thorough=80000)),
+)
+ENGINES.append(dict(name="contract-lab", path="checks/c16_bounded.cpp, checks/c17_contract.cpp",
+                    serves_properties=["C16", "C17"],
+                    kind_free_text="explicit-state search over primitive-call histories of readers/writers against cursor/vector reference models"))
+
+# ----------------------------------------------------------------------------------------------- C17
+c17 = B("c17", ["checks/c17_contract.cpp", "harness/support.cpp"], "gcc", ldflags=WRAP)
+c17_asan = B("c17_asan", ["checks/c17_contract.cpp", "harness/support.cpp"], "asan", ldflags=WRAP)
+
+
+def jobs_c17(tier):
+    n = 10 if tier == "quick" else 16
+    return sharded(c17, n, "--tier", tier) + sharded(c17_asan, n, "--tier", tier)
+
+
+CHECKS["C17"] = dict(
+    engine="contract-lab", level="model_checking", jobs=jobs_c17,
+    level_text="explicit-state search to fixpoint over (cursor, previous call kind) for every reader rig (Buffer, Pedantic, "
+               "Stream, Fd, BoundedReader over each with exact and huge limit) on sources of 0..9 distinct bytes and every "
+               "writer rig (Buffer, Pedantic, Constexpr, Stream, Fd, BoundedWriter over them) with capacities 0..9: every "
+               "call of the alphabet (byte, ranges of width 1/2/4/8 x 0..3, Skip and Ensure/Prepare with 0,1,2,rem-1,rem,"
+               "rem+1,2^63,2^64-1, padding values) is compared with a cursor-over-vector / vector-with-capacity reference "
+               "up to and including the first failing call; fd answers EINTR/EIO/EOF at every syscall index; ten literal "
+               "objects serialized in a constant expression must equal their run-time serialization through five writers",
+    level_note="BufferWriter is driven only by calls that fit (its documented contract: callers Prepare first); unbounded "
+               "sinks are not asked to materialise more than 1 MiB of padding; gcc (canaries) and clang ASan+UBSan builds; "
+               "fd rigs run on in-memory descriptors behind --wrap=read/write/close",
+    technique="explicit-state model checking of the implementation against a reference model (BFS with state hashing, fixpoint)",
+    rule="states = distinct (cursor, previous call kind) per rig and source length/capacity; transitions = calls executed on "
+         "the real reader/writer and compared",
+    assumptions=R_ASSUME[1:],
+    bounds=dict(quick="source lengths / capacities 0..9, fixpoint", thorough="0..17"),
+    floor=dict(transitions=dict(quick=100000, thorough=300000)),
+)
